@@ -540,7 +540,7 @@ pub fn timeout_any_u64() -> Duration {
 }
 
 pub fn fmt_stub(_args: std::fmt::Arguments<'_>) -> String { String::new() }
-pub fn sleep_stub(_d: Duration) {}
+pub fn sleep_stub(d: Duration) { verif::advance_clock(d); }
 
 /// Sender harness: `send_file` from an injected pre-EOF state, K symbolic events, then the cut.
 /// Concrete per instance: W, blk, pre-load J, tail length FLEN (bytes of the file from the
@@ -684,7 +684,7 @@ pub fn print_stub(_args: std::fmt::Arguments<'_>) {}
 /// blocks buffered), events as in rcv_inject; FAILAT = model-file offset at which writes fail
 /// (99 = never; 98 = symbolic); clean-on-error symbolic.
 macro_rules! c13_upload {
-    ($name:ident, $w:expr, $blk:expr, $j:expr, [$(($km:expr, $rel:expr, $dl:expr, $dt:expr)),*], $tmo:expr, $failat:expr, $unw:expr) => {
+    ($name:ident, $w:expr, $blk:expr, $j:expr, [$(($km:expr, $rel:expr, $dl:expr, $dt:expr)),*], $tmo:expr, $failat:expr, $r0:expr, $unw:expr) => {
         #[kani::proof]
         #[kani::unwind($unw)]
         #[kani::stub(std::fmt::format, fmt_stub)]
@@ -708,7 +708,11 @@ macro_rules! c13_upload {
                 verif::PRELOAD_N = $j;
                 verif::PRELOAD_CHUNK = $blk;
                 verif::PRELOAD_BYTES = pb;
-                M.oracle = O_STORE; M.sender = false; M.w = $w as usize; M.blk = $blk; M.rep = 1;
+                verif::START_RETRY = if $r0 == 0 { None } else { Some($r0) };
+                M.fails = $r0 as usize;
+                M.fails_any = $r0 as usize;
+                // a worker that never gives up never cleans up: the retry bound is part of the cleanup obligation
+                M.oracle = O_STORE | O_RETRY; M.sender = false; M.w = $w as usize; M.blk = $blk; M.rep = 1;
                 M.timeout = timeout; M.b0 = b0; M.last_inorder = b0; M.unacked = $j;
                 let mut i = 0;
                 while i < $j * $blk { M.g[i] = pb[i]; i += 1; }
